@@ -34,7 +34,7 @@ select
     datetime(etime/1000, 'unixepoch') as etime,
     datetime(mtime/1000, 'unixepoch') as mtime
 from rkey
-where rkey.etime is null or rkey.etime > unixepoch('subsec');
+where rkey.etime is null or rkey.etime > unixepoch('subsec') * 1000;
 
 -- ┌───────────────┐
 -- │ Strings       │
@@ -58,7 +58,7 @@ select
     datetime(etime/1000, 'unixepoch') as etime,
     datetime(mtime/1000, 'unixepoch') as mtime
 from rstring join rkey on rstring.kid = rkey.id and rkey.type = 1
-where rkey.etime is null or rkey.etime > unixepoch('subsec');
+where rkey.etime is null or rkey.etime > unixepoch('subsec') * 1000;
 
 -- ┌───────────────┐
 -- │ Lists         │
@@ -107,7 +107,7 @@ select
     datetime(etime/1000, 'unixepoch') as etime,
     datetime(mtime/1000, 'unixepoch') as mtime
 from rlist join rkey on rlist.kid = rkey.id and rkey.type = 2
-where rkey.etime is null or rkey.etime > unixepoch('subsec')
+where rkey.etime is null or rkey.etime > unixepoch('subsec') * 1000
 window w as (partition by kid order by pos);
 
 -- ┌───────────────┐
@@ -142,7 +142,7 @@ select
     datetime(etime/1000, 'unixepoch') as etime,
     datetime(mtime/1000, 'unixepoch') as mtime
 from rset join rkey on rset.kid = rkey.id and rkey.type = 3
-where rkey.etime is null or rkey.etime > unixepoch('subsec');
+where rkey.etime is null or rkey.etime > unixepoch('subsec') * 1000;
 
 -- ┌───────────────┐
 -- │ Hashes        │
@@ -181,7 +181,7 @@ select
     datetime(etime/1000, 'unixepoch') as etime,
     datetime(mtime/1000, 'unixepoch') as mtime
 from rhash join rkey on rhash.kid = rkey.id and rkey.type = 4
-where rkey.etime is null or rkey.etime > unixepoch('subsec');
+where rkey.etime is null or rkey.etime > unixepoch('subsec') * 1000;
 
 -- ┌───────────────┐
 -- │ Sorted sets   │
@@ -223,4 +223,4 @@ select
     datetime(etime/1000, 'unixepoch') as etime,
     datetime(mtime/1000, 'unixepoch') as mtime
 from rzset join rkey on rzset.kid = rkey.id and rkey.type = 5
-where rkey.etime is null or rkey.etime > unixepoch('subsec');
+where rkey.etime is null or rkey.etime > unixepoch('subsec') * 1000;
